@@ -60,12 +60,23 @@ func runC14(w *World) {
 	if w.deep() && w.knob("deep", 3) == 0 {
 		size = 150
 	}
+	// (not together with a log rewrite: a RENAME while the log is being rewritten is the known
+	// finding C09-rename-during-rewrite, which C09 attributes and this check cannot)
+	withRewrite := w.knob("rewrite", 4) == 1
+	twoKeys := w.knob("twokeys", 2) == 1 && !withRewrite
 	prog := w.program("p1", func(r *rand.Rand) []Cmd {
 		g := defaultGenCfg(1)
 		g.keys = []string{"k1"}
+		if twoKeys {
+			// a second collection: RENAME / RENAMENX then move objects with their deadlines
+			g.keys = []string{"k1", "k2"}
+		}
 		g.freeIDs = []string{"a", "b", "c"}
 		g.exVals = []string{"0.1", "0.2", "0.3", "0.5", "0.9", "1", "1.5", "2", "3", "5"}
 		g.wRead, g.wWrite, g.wMulti, g.wJSON, g.wExpire = 8, 8, 1, 2, 10
+		if twoKeys {
+			g.wMulti = 3
+		}
 		g.noFlush = true
 		var p []Cmd
 		for i := 0; i < size; i++ {
@@ -84,15 +95,16 @@ func runC14(w *World) {
 			case x < 9:
 				// overwrite / re-expire patterns that must not leave a stale timer
 				id := pick(r, g.freeIDs)
+				key := pick(r, g.keys)
 				switch r.Intn(4) {
 				case 0:
-					p = append(p, Cmd{Args: []string{"SET", "k1", id, "EX", pick(r, g.exVals), "POINT", g.lat(r), g.lon(r)}})
+					p = append(p, Cmd{Args: []string{"SET", key, id, "EX", pick(r, g.exVals), "POINT", g.lat(r), g.lon(r)}})
 				case 1:
-					p = append(p, Cmd{Args: []string{"SET", "k1", id, "POINT", g.lat(r), g.lon(r)}})
+					p = append(p, Cmd{Args: []string{"SET", key, id, "POINT", g.lat(r), g.lon(r)}})
 				case 2:
-					p = append(p, Cmd{Args: []string{"EXPIRE", "k1", id, pick(r, g.exVals)}})
+					p = append(p, Cmd{Args: []string{"EXPIRE", key, id, pick(r, g.exVals)}})
 				default:
-					p = append(p, Cmd{Args: []string{"PERSIST", "k1", id}})
+					p = append(p, Cmd{Args: []string{"PERSIST", key, id}})
 				}
 			default:
 				p = append(p, g.cmd(r))
@@ -119,7 +131,6 @@ func runC14(w *World) {
 	// a quarter of the runs rewrite the log while deadlines come and go, and end with a crash and
 	// a restart: restarts observe expirations and deadlines exactly as the live server had them -
 	// what had a deadline still has one, what had none has none
-	withRewrite := w.knob("rewrite", 4) == 1
 	if withRewrite {
 		sh := w.addActor(n, "127.0.0.1:50090", []Cmd{{Args: []string{"AOFSHRINK"}}})
 		sh.weight = 2
@@ -260,6 +271,9 @@ func runC14(w *World) {
 				continue
 			}
 			nexp++
+			if e.args[1] != "k1" {
+				continue // the fence watches k1
+			}
 			if fence == nil || fence.ops[0].Return < 0 || fence.ops[0].Return > e.step {
 				continue
 			}
